@@ -22,6 +22,12 @@ import (
 //     ad.<how> | otherkey | rand | hdr.<how> (envelope length header)          -> must be rejected
 //     huge.<len>               c = <len> zero bytes (lazily mapped), starting with the
 //                              key's prefix; c/ad/p0 fields are "-"
+//     bigad.<k>                DIRECT case without a model computation (AES-CTR-HMAC only): the c
+//                              field is the IV; p0 is encrypted with an all-zero AD of 2^k bytes
+//                              (k = 29: 512 MiB, where a 32-bit bit-length field wraps), then
+//                              (prefix || AD || iv || ct || tag, empty AD) is presented; observation
+//                              ctl=<Decrypt of the genuine pair>|shift=<Decrypt of the shifted pair>
+//                              (an accepted shifted pair is rendered ok(<n> bytes), not in hex)
 // observation: ok:<plaintext> | err | PANIC   (a panic is caught here so that
 //   the model, which predicts panics of the standard library on over-long
 //   inputs, can be compared; Check reports every panic as a violation).
@@ -56,14 +62,58 @@ func decrypt(a tink.AEAD, c, ad []byte) (obs string) {
 	return c01.Res(a.Decrypt(c, ad))
 }
 
+var bigZero []byte
+
+// zeroAD returns n zero bytes (one lazily backed allocation shared by all cases of a run).
+func zeroAD(n int) []byte {
+	if len(bigZero) < n {
+		bigZero = make([]byte, n)
+	}
+	return bigZero[:n]
+}
+
+// runBigAD: the MAC input of encrypt-then-MAC is ad || iv || ct || be64(8*len(ad)); if the bit
+// length were encoded in fewer than 64 bits (or wrapped), moving a 2^k-byte AD in front of the
+// ciphertext body and presenting an empty AD would give the same MAC input.
+func runBigAD(s *c01.Spec, a tink.AEAD, k int, iv, p0 []byte) (obs string) {
+	defer func() {
+		if e := recover(); e != nil {
+			obs = "PANIC"
+		}
+	}()
+	ad := zeroAD(1 << uint(k))
+	var ct []byte
+	var err error
+	hx.WithTape(&hx.Tape{Bulk: append([]byte{}, iv...)}, func() { ct, err = a.Encrypt(p0, ad) })
+	if err != nil {
+		return "enc-err"
+	}
+	ctl := c01.Res(a.Decrypt(ct, ad))
+	pl := len(s.Prefix())
+	shifted := make([]byte, 0, len(ct)+len(ad))
+	shifted = append(append(append(shifted, ct[:pl]...), ad...), ct[pl:]...)
+	shift := "err"
+	if pt, err := a.Decrypt(shifted, nil); err == nil {
+		shift = fmt.Sprintf("ok(%d bytes)", len(pt))
+	}
+	return "ctl=" + ctl + "|shift=" + shift
+}
+
 func run(line string) string {
-	s, kind, c, ad, _, err := parse(line)
+	s, kind, c, ad, p0, err := parse(line)
 	if err != nil {
 		return "bad-line"
 	}
 	a, err := s.Build()
 	if err != nil {
 		return "nokey"
+	}
+	if strings.HasPrefix(kind, "bigad.") {
+		k, _ := strconv.Atoi(kind[6:])
+		if s.Scheme != "etm" || k < 0 || k > 30 {
+			return "bad-line"
+		}
+		return runBigAD(s, a, k, c, p0)
 	}
 	if strings.HasPrefix(kind, "huge.") {
 		n, _ := strconv.Atoi(kind[5:])
@@ -95,6 +145,16 @@ func check(line, obs string) string {
 	}
 	if obs == "nokey" || obs == "bad-line" || obs == "nomem" {
 		return "harness: " + obs
+	}
+	if strings.HasPrefix(kind, "bigad.") {
+		want := "ctl=ok:" + hx.H(p0) + "|shift=err"
+		if obs == want {
+			return ""
+		}
+		if strings.Contains(obs, "shift=ok") {
+			return "AES-CTR-HMAC: plaintext released for (prefix || AD || iv || ct || tag, empty AD) where AD = 2^" + kind[6:] + " zero bytes was the associated data at Encrypt: the AD bit length in the MAC input is not a full 64-bit field: " + obs
+		}
+		return "AES-CTR-HMAC with a 2^" + kind[6:] + "-byte associated data: " + obs + ", want " + want
 	}
 	if kind == "valid" || kind == "adnil" {
 		if obs != "ok:"+hx.H(p0) {
